@@ -75,3 +75,27 @@ package selftest
 
 //@ func parseLoopBad
 //@   loop 1 invariant range: 0 <= i && i <= len(b)
+
+//@ func orderOK
+//@   order tx_flushed_before_sync: s.tx.Flush before s.tx.Sync
+//@   order tx_synced_before_append: s.tx.Sync before s.cl.Append
+//@   order cl_flushed_before_sync: s.cl.Flush before s.cl.Sync
+//@   order cl_synced_before_frontier: s.cl.Sync before store s.frontier
+
+//@ func orderCondSync
+//@   order tx_synced_before_append: s.tx.Sync before s.cl.Append
+
+//@ func orderIgnoredErr
+//@   order tx_synced_before_append: s.tx.Sync before s.cl.Append
+
+//@ func orderSwapped
+//@   order tx_synced_before_append: s.tx.Sync before s.cl.Append
+
+//@ func orderFrontierEarly
+//@   order cl_synced_before_frontier: s.cl.Sync before store s.frontier
+
+//@ func orderAckWithoutSync
+//@   order synced_before_ok: s.tx.Sync before return nil
+
+//@ func orderAckOK
+//@   order synced_before_ok: s.tx.Sync before return nil
